@@ -326,14 +326,22 @@ RECURSIVE Sprinkle(_, _)
 Sprinkle(w, j) == IF w = <<>> THEN <<UnknownRecs[(j % 5) + 1]>>
                   ELSE <<UnknownRecs[(j % 5) + 1], Head(w)>> \o Sprinkle(Tail(w), j + 1)
 
+\* unknown fields whose numbers share their low 16 bits with a declared field (a field table indexed by a
+\* truncated number would take them for that field): after the message, with the same and another wire type
+Aliased(sh, w) == w \o Concat([i \in 1..Len(sh) |-> <<R(Num(sh, i) + 65536, 0, "u64", 1, <<>>),
+                                                       R(Num(sh, i) + 65536, 2, "str", 1, <<>>),
+                                                       R(Num(sh, i) + 131072, 5, "x32", 1, <<>>)>>])
+
 Reencodings == [reordered |-> Reordered(wire), overridden |-> Overridden(shape, val, wire),
-                split |-> SplitMsgs(shape, wire), unknown |-> Sprinkle(wire, Len(shape))]
+                split |-> SplitMsgs(shape, wire), unknown |-> Sprinkle(wire, Len(shape)),
+                aliased |-> Aliased(shape, wire)]
 
 ReencodeStable ==
   shape # <<>> => /\ Equiv(Decode(shape, Reencodings.reordered), val)
                   /\ Equiv(Decode(shape, Reencodings.overridden), val)
                   /\ Equiv(Decode(shape, Reencodings.split), val)
                   /\ Equiv(Decode(shape, Reencodings.unknown), val)
+                  /\ Equiv(Decode(shape, Reencodings.aliased), val)
 
 -----------------------------------------------------------------------------
 EmitVector == (Emit /\ shape # <<>>) =>
